@@ -72,6 +72,8 @@ PROP = {
     "regen_files": ["GenGuards.v", "GenSigs.v"],
     "num": 10,
     "runs": [{"tag": "c10", "bin": "c10", "timeout": {"quick": 300, "thorough": 900}, "on_build_failure": _instantiation_rejected},
+             # optimised build of the same cases: no debug assertions, no overflow checks, inlined unsafe paths
+             {"tag": "c10rel", "bin": "c10", "profile": "release"},
              # the same calls inside `const` items; a separate bin so that a compile-time
              # evaluation error does not take the run-time cases (and their replays) down
              {"tag": "c10const", "bin": "c10c", "timeout": 120, "on_build_failure": _const_items_rejected},
